@@ -322,4 +322,7 @@ def run(chk):
     if True:
         from . import corpus
         corpus.template_rules(chk, "C16")
+    # macro/runtime boundary: what the expansion passes at each named hook parameter (read off emit_macros' quote! templates)
+    from . import quotes
+    quotes.boundary_rule(chk, P, "C16", {"__private_format", "__private_emit", "__private_evt"}, 4)
     return chk
